@@ -73,6 +73,9 @@ static void on_stuck (int kind, const char *desc) {
   vx_fail (key, "variant %d: %s", g_variant, desc);
 }
 
+/* free-running build only: a body that is natively stuck ends its element (after collecting the
+ * ThreadSanitizer reports made so far); ordering verdicts come from the scheduler build */
+static void free_abort (void);
 static void msleep (int ms) { struct timespec ts = { 0, ms * 1000000L }; nanosleep (&ts, 0); }
 
 /* variant selection: a free choice in the scheduler build, the element index in the free-running build */
@@ -234,6 +237,7 @@ static void *consumer_fn (void *a) {
     int r = do_dequeue (3, empties < 6);
     if (r) { got++; empties = 0; }
     else { empties++; if (q_policy == 2) msleep (1); }
+    if (!SCHED && empties > 3000) free_abort ();        /* natively stuck: end the element (scheduler runs report the hang) */
   }
   return 0;
 }
@@ -586,8 +590,15 @@ static const char *bname (int b) { return b == 1 ? "post" : b == 2 ? "queue" : b
 static void describe (long i, char *buf, size_t len) { snprintf (buf, len, "free-running %s variant %d x %ld iterations", bname (EL[i].body), EL[i].variant, g_iters); }
 
 #include "c19_tsan.h"
+static off_t g_from;
+static void free_abort (void) {
+  vx_count (6, 1);
+  c19_tsan_what = g_bodyname; c19_tsan_variant = g_variant;
+  scan_tsan (g_from);
+  vx_child_exit (0);
+}
 static void elem_fn (long idx) {
-  off_t from = lseek (2, 0, SEEK_END);
+  off_t from = g_from = lseek (2, 0, SEEK_END);
   g_body = EL[idx].body;
   for (long it = 0; it < g_iters; it++) {
     g_variant = EL[idx].variant;
@@ -599,6 +610,9 @@ static void elem_fn (long idx) {
 }
 #endif
 
+#ifndef C19_FREE
+static void free_abort (void) { }
+#endif
 static void body (void) {
   switch (g_body) {
   case 1: body_post (); break;
